@@ -62,6 +62,7 @@ Lemma auth_loop_eq : forall srv peer cs c steps,
         | st :: rest =>
             match st_ret st with
             | HErr => ([inv], EClosedErr)
+            | HPanic => ([inv], EPanic)
             | HKeepOpen => ([inv], EOpen)
             | HDone => ([inv], EClosedOk)
             | HKeepAlive =>
